@@ -40,6 +40,7 @@ def own_case(inp):
 class S(core.Stage):
     module = "C04Cases"
     shard_size = 120
+    exec_time_limit = 90     # a full-ITS template with a symmetric spectator part is re-matched once per automorphism
 
     def __init__(self, name, inputs):
         self.name, self._inputs = name, inputs
